@@ -142,7 +142,7 @@ def _post_shutdown(cls_name):
             ev = downs[0][1]
             cl.append(("the same wait flag and keyword arguments (cancel_futures...) are passed down, to this executor's own delegate", "PC",
                        z3.And(z3.BoolVal(len(ev.args) == 1 and ev.starkw is not None and not ev.kwargs), ev.args[0] == ctx["wait"].t if ev.args else False,
-                              z3.BoolVal(_same_kw(engine, st, ev.starkw, ctx["kw"])), ev.recv == Val.id(st.get(engine.heap_key(cls_name, "_delegate"), sid))), ["C11"]))
+                              z3.BoolVal(_same_kw(engine, st, ev.starkw, ctx["kw"])), ev.recv == Val.id(st.get(engine.heap_key(cls_name, "_delegate"), sid))), ["C11", "C04"]))     # C04: a lost wait=False makes shutdown() join the delegate's workers
             if isinstance(out, Raise):
                 cl.append(("only the delegate's own shutdown() error can escape", "EX", out.exc.t == ev.exc if ev.exc is not None else False, ["C18"]))
                 return cl
@@ -185,7 +185,7 @@ UNITS = [
 for c, (qn, tf, ef) in EXECUTORS.items():
     UNITS.append(Unit("%s.shutdown" % c, qn, ["C11", "C03", "C04", "C12", "C18", "C20"], _setup_shutdown(c), _post_shutdown(c), cfg=_cfg_shutdown, self_cls=c))
     if c != "FlatMapExecutor":
-        UNITS.append(Unit("%s.shutdown[no argument: wait defaults to True]" % c, qn, ["C11"], _setup_shutdown(c, True), _post_shutdown(c), cfg=_cfg_shutdown, self_cls=c))
+        UNITS.append(Unit("%s.shutdown[no argument: wait defaults to True]" % c, qn, ["C11", "C03", "C04", "C12", "C18", "C20"], _setup_shutdown(c, True), _post_shutdown(c), cfg=_cfg_shutdown, self_cls=c))
 
 
 # ---- submit() of the pass-through executors: gate, forwarding, refusal after shutdown -------------------
@@ -312,7 +312,7 @@ def _post_cos_shutdown(engine, st, ctx, out):
         ev = downs[0][1]
         cl.append(("the same wait flag and keyword arguments are passed down", "PC",
                    z3.And(z3.BoolVal(len(ev.args) == 1 and ev.starkw is not None), ev.args[0] == ctx["wait"].t if ev.args else False,
-                          z3.BoolVal(_same_kw(engine, st, ev.starkw, ctx["kw"]))), ["C11"]))
+                          z3.BoolVal(_same_kw(engine, st, ev.starkw, ctx["kw"]))), ["C11", "C04"]))
     return cl
 
 
@@ -343,7 +343,7 @@ def _post_cos_submit(engine, st, ctx, out):
 UNITS += [
     Unit("CancelOnShutdownExecutor.shutdown", "cancel_on_shutdown.CancelOnShutdownExecutor.shutdown", ["C10", "C11", "C04", "C18", "C20"],
          _setup_shutdown("CancelOnShutdownExecutor"), _post_cos_shutdown, cfg=_cfg_cos, self_cls="CancelOnShutdownExecutor"),
-    Unit("CancelOnShutdownExecutor.shutdown[no argument: wait defaults to True]", "cancel_on_shutdown.CancelOnShutdownExecutor.shutdown", ["C10", "C11"],
+    Unit("CancelOnShutdownExecutor.shutdown[no argument: wait defaults to True]", "cancel_on_shutdown.CancelOnShutdownExecutor.shutdown", ["C10", "C11", "C04", "C18", "C20"],
          _setup_shutdown("CancelOnShutdownExecutor", True), _post_cos_shutdown, cfg=_cfg_cos, self_cls="CancelOnShutdownExecutor"),
     Unit("CancelOnShutdownExecutor.submit", "cancel_on_shutdown.CancelOnShutdownExecutor.submit", ["C10", "C11", "C01", "C12"],
          _setup_submit("CancelOnShutdownExecutor"), _post_cos_submit, cfg=_cfg_cos, self_cls="CancelOnShutdownExecutor"),
